@@ -18,3 +18,18 @@ PLANS["C20"] = dict(
              "every member can be drawn": "assumed contract of random.choice (any index of the member list) + iter.all; exercised by the stand-in",
              "removing an absent element raises and leaves the structure intact": "proved (remove:raises.KeyError.*)"},
     assumptions=["M-CARD: a duplicate-free enumeration of S has |S| entries", "M-SIM: per-operation refinement of the abstract set gives refinement for every history"])
+
+PLANS["C05"] = dict(
+    level="proof", bounded="c05",
+    modules=[dict(name="joint_degree")],
+    technique="deductive verification of the real handshaking_lemma (nested loops, inductive invariants over a column-sum spec function, engine-proved update lemma) and sample_jds_from_jdd (modular call, aligned weighted draw) by VCs from the AST in z3/cvc5; bounded RNG-exhaustive run-time contracts as labelled stand-in",
+    level_text="For all N, all dimensions, all size vectors and every outcome of random.choices / random.randrange the real functions are proved to return N tuples, never below the drawn keys, with per-topology totals equal to the drawn totals plus the minimal padding (hence divisible and < size added), drawn from the aligned key/weight lists of the current distribution. Proportionality of the draw is the assumed contract of random.choices.",
+    level_note="Trusted: vf VC generator, z3/cvc5; assumed contracts: list(map(sum, zip(*rows))) = column sums, list(d.keys())/list(d.values()) aligned, random.choices returns k members of the population (in proportion to the weights: assumed, not re-tested), random.randrange(a,b) in [a,b). Lemma colsum_update is proved by the engine by induction.",
+    explanation="handshaking_lemma and sample_jds_from_jdd are verified on the real source for all inputs and all RNG outcomes (loop invariants: processed columns final, unprocessed untouched, current column = old sum + iterations). "
+                "Bounded stand-in (not counted as proof): small distributions x sizes x N, every choices/randrange resolution, plus sample/re-load/sample histories.",
+    clauses={"exactly N non-negative integer tuples": "proved (ensures.len, rows_are_tuples, inv rowlen/ge)",
+             "totals divisible by motif size": "proved (ensures.divisible)",
+             "fewest added stubs, fewer than the motif size, never a removal": "proved (ensures.minimal_padding, never_removed)",
+             "keys drawn in proportion to their weights": "proved that choices is called with aligned keys/weights of the current distribution and k=N; proportionality itself is the assumed library contract",
+             "entries usable wherever a joint degree sequence is accepted": "proved as rows_are_tuples (hashable tuples); exercised downstream by the stand-in"},
+    not_decided=["the probability law of random.choices (assumed library contract)"])
